@@ -974,7 +974,10 @@ func c08AllowRule(l *c08Loc, path string, attrsOk func(l *c08Loc) bool) string {
 	case strings.Contains(t, "parameters.Map") || strings.Contains(t, "specification.") || strings.Contains(t, "parameters.Parameters") ||
 		(strings.Contains(path, ".parameters") && (strings.Contains(t, "errors.CompositeError") || t == "[]error" || strings.HasPrefix(t, "map[string]"))):
 		return "params"
-	case strings.Contains(path, ".paramMap") || strings.Contains(path, ".specifications") || strings.Contains(path, ".validationErrors"):
+	case strings.Contains(path, ".parameters") &&
+		(strings.Contains(path, ".paramMap") || strings.Contains(path, ".specifications") || strings.Contains(path, ".validationErrors")):
+		// only the fields of a component's parameters.Parameters: a field that merely has one of these names elsewhere
+		// (e.g. an error collector kept on a model) is not covered
 		return "params"
 	case strings.Contains(t, "dataset.") || strings.Contains(t, "tables.") || strings.Contains(t, "csv.DataSet") || strings.Contains(t, "excel.DataSet"):
 		return "data"
